@@ -65,6 +65,7 @@ def run(ctx):
             d = sites.setdefault(k, {"kinds": set(), "entries": set(), "eff": e, "targets": set()})
             d["kinds"].add(e.kind)
             d["entries"].add(f"{cq.split('::')[1]}.{f.name}")
+            d.setdefault("classes", set()).add(f"{fl}.{cq.split('::')[1]}")
             root = "schema" if e.root[0] == "P" else e.root[1]
             d["targets"].add(root + "".join(f".{p}" if not p.startswith("[") else p for p in e.path[:3]))
             if len(e.via) < len(d["eff"].via):
@@ -78,7 +79,7 @@ def run(ctx):
             ok, why = True, "inside a `with <lock>` block"
         if bad and _thread_local_global(ix, e.root):
             ok, why = True, "thread-local / ContextVar storage"
-        ctx.ob("R1", sf, f"shared write `{text}`", ok,
+        ctx.ob("R1", sf, f"shared write `{text}` reached from validate of {', '.join(sorted(d['classes']))}", ok,
                why if ok else
                f"unsynchronised write ({', '.join(sorted(bad))}) to {sorted(d['targets'])[:3]}, shared by all threads validating "
                f"through {sorted(d['entries'])[:4]}; a concurrent validate observes the intermediate value; call path: {chain(e) or 'direct'}",
